@@ -7,7 +7,7 @@ Every API-layer function preserves it and delivers, on the mono side, exactly ch
 -/
 namespace Soxr.Chan
 
-variable {σ α β κ : Type} {E : Engine σ α}
+variable {σ α β κ : Type} {E : Engine σ α} {mc : Nat → List α → List β × Nat × Nat}
 
 structure Rel (Sh : Shape E κ) (c ch : Nat) (S s : St σ) : Prop where
   hc : c < ch
@@ -43,14 +43,14 @@ theorem all_len_eq (Sh : Shape E κ) (eng : List σ) (fl : Bool) (len : Nat) (hu
   obtain ⟨e', he', rfl⟩ := List.mem_map.mp hr'
   exact out1_len Sh fl e' e len (hu e' he' e he)
 
-theorem outputNoCb_nf (Sh : Shape E κ) (cfg : Cfg α β) (P : PureConv cfg.cout) (S : St σ) (len : Nat)
-    (hu : Uniform Sh S.eng) :
+theorem outputNoCb_nf (Sh : Shape E κ) (cfg : Cfg α β) (S : St σ) (len : Nat) (hu : Uniform Sh S.eng) :
     outputNoCb E cfg S len =
       ({ S with eng := (S.eng.map (fun e => out1 E S.flushing e len)).map (·.2),
-                clips := S.clips + ((S.eng.map (fun e => out1 E S.flushing e len)).map (fun r => P.g r.1)).sum,
-                clipsBy := addV S.clipsBy ((S.eng.map (fun e => out1 E S.flushing e len)).map (fun r => P.g r.1)) },
+                clips := S.clips + (convAll cfg.cout S.seed ((S.eng.map (fun e => out1 E S.flushing e len)).map (·.1))).2.1.sum,
+                seed := (convAll cfg.cout S.seed ((S.eng.map (fun e => out1 E S.flushing e len)).map (·.1))).2.2,
+                clipsBy := addV S.clipsBy (convAll cfg.cout S.seed ((S.eng.map (fun e => out1 E S.flushing e len)).map (·.1))).2.1 },
        lastLen (S.eng.map (fun e => out1 E S.flushing e len)),
-       (S.eng.map (fun e => out1 E S.flushing e len)).map (fun r => P.f r.1)) := by
+       (convAll cfg.cout S.seed ((S.eng.map (fun e => out1 E S.flushing e len)).map (·.1))).1) := by
   have hsrc : (S.eng.map (fun e => out1 E S.flushing e len)).map
         (fun r => if cfg.osplit then r.1 else takePad cfg.junk (lastLen (S.eng.map (fun e => out1 E S.flushing e len))) r.1)
       = (S.eng.map (fun e => out1 E S.flushing e len)).map (·.1) := by
@@ -60,20 +60,19 @@ theorem outputNoCb_nf (Sh : Shape E κ) (cfg : Cfg α β) (P : PureConv cfg.cout
     · rfl
     · exact takePad_eq_self _ (all_len_eq Sh S.eng S.flushing len hu r hr)
   unfold outputNoCb
-  simp only [hsrc, convAll_pure P, List.map_map]
-  rfl
+  simp only [hsrc]
 
 /-! ### per-function simulation -/
 
 theorem feedAll_proj (cfg : Cfg α β) (eng : List σ) (b : InBuf β) (len n c : Nat) (h : len ≤ n) :
-    (feedAll E cfg eng b len)[c]?.toList = feedAll E (monoCfg cfg) (eng[c]?.toList) (projIn cfg c n b) len := by
+    (feedAll E cfg eng b len)[c]?.toList = feedAll E (monoCfgC cfg mc) (eng[c]?.toList) (projIn cfg c n b) len := by
   unfold feedAll
   rw [List.getElem?_mapIdx]
   cases eng[c]? with
   | none => rfl
   | some x =>
     simp only [Option.map_some, Option.toList_some, List.mapIdx_cons, List.mapIdx_nil]
-    rw [decode_proj cfg c len n b h]
+    rw [decode_proj cfg mc c len n b h]
     rfl
 
 theorem feedAll_length (cfg : Cfg α β) (eng : List σ) (b : InBuf β) (len : Nat) :
@@ -94,42 +93,41 @@ theorem input_feed (cfg : Cfg α β) (S : St σ) (b : InBuf β) (len : Nat) (h :
 
 theorem input_sim (Sh : Shape E κ) (cfg : Cfg α β) {c : Nat} {S s : St σ} (h : Rel Sh c cfg.ch S s)
     (inb : Option (InBuf β)) (len n : Nat) (hn : len ≤ n) :
-    Rel Sh c cfg.ch (input E cfg S inb len).1 (input E (monoCfg cfg) s (inb.map (projIn cfg c n)) len).1 ∧
-    (input E (monoCfg cfg) s (inb.map (projIn cfg c n)) len).2 = (input E cfg S inb len).2 := by
+    Rel Sh c cfg.ch (input E cfg S inb len).1 (input E (monoCfgC cfg mc) s (inb.map (projIn cfg c n)) len).1 ∧
+    (input E (monoCfgC cfg mc) s (inb.map (projIn cfg c n)) len).2 = (input E cfg S inb len).2 := by
   cases hE : S.error with
   | some e =>
-    rw [input_err cfg S _ _ (by simp [hE]), input_err (monoCfg cfg) s _ _ (by simp [h.error, hE])]
+    rw [input_err cfg S _ _ (by simp [hE]), input_err (monoCfgC cfg mc) s _ _ (by simp [h.error, hE])]
     exact ⟨h, rfl⟩
   | none =>
     have hE' : s.error = none := by rw [h.error, hE]
     by_cases hl : len = 0
     · subst hl
-      rw [input_eof cfg S _ hE, input_eof (monoCfg cfg) s _ hE']
+      rw [input_eof cfg S _ hE, input_eof (monoCfgC cfg mc) s _ hE']
       exact ⟨⟨h.hc, h.len, h.clen, h.uni, h.eng, h.clips, rfl, h.error, h.fn, h.seed⟩, rfl⟩
     · cases inb with
       | none =>
-        rw [Option.map_none, input_null cfg S _ hE hl, input_null (monoCfg cfg) s _ hE' hl]
+        rw [Option.map_none, input_null cfg S _ hE hl, input_null (monoCfgC cfg mc) s _ hE' hl]
         exact ⟨⟨h.hc, h.len, h.clen, h.uni, h.eng, h.clips, h.flushing, rfl, h.fn, h.seed⟩, rfl⟩
       | some b =>
-        rw [Option.map_some, input_feed cfg S _ _ hE hl, input_feed (monoCfg cfg) s _ _ hE' hl]
+        rw [Option.map_some, input_feed cfg S _ _ hE hl, input_feed (monoCfgC cfg mc) s _ _ hE' hl]
         refine ⟨⟨h.hc, ?_, h.clen, ?_, ?_, h.clips, h.flushing, h.error, h.fn, h.seed⟩, rfl⟩
         · show (feedAll E cfg S.eng b len).length = _
           rw [feedAll_length]; exact h.len
         · exact uniform_feedAll Sh cfg S.eng b len h.uni
-        · show feedAll E (monoCfg cfg) s.eng (projIn cfg c n b) len = (feedAll E cfg S.eng b len)[c]?.toList
+        · show feedAll E (monoCfgC cfg mc) s.eng (projIn cfg c n b) len = (feedAll E cfg S.eng b len)[c]?.toList
           rw [h.eng]; exact (feedAll_proj cfg S.eng b len n c hn).symm
 
-theorem outputNoCb_sim (Sh : Shape E κ) (cfg : Cfg α β) (P : PureConv cfg.cout) {c : Nat} {S s : St σ}
+theorem outputNoCb_sim (Sh : Shape E κ) (cfg : Cfg α β) {c : Nat} (V : ChanConv cfg.cout cfg.ch c mc) {S s : St σ}
     (h : Rel Sh c cfg.ch S s) (len : Nat) :
-    Rel Sh c cfg.ch (outputNoCb E cfg S len).1 (outputNoCb E (monoCfg cfg) s len).1 ∧
-    (outputNoCb E (monoCfg cfg) s len).2.1 = (outputNoCb E cfg S len).2.1 ∧
-    (outputNoCb E (monoCfg cfg) s len).2.2 = [(outputNoCb E cfg S len).2.2.getD c []] ∧
+    Rel Sh c cfg.ch (outputNoCb E cfg S len).1 (outputNoCb E (monoCfgC cfg mc) s len).1 ∧
+    (outputNoCb E (monoCfgC cfg mc) s len).2.1 = (outputNoCb E cfg S len).2.1 ∧
+    (outputNoCb E (monoCfgC cfg mc) s len).2.2 = [(outputNoCb E cfg S len).2.2.getD c []] ∧
     (outputNoCb E cfg S len).2.2.length = cfg.ch := by
   have hclt : c < S.eng.length := by rw [h.len]; exact h.hc
   have hx : S.eng[c]? = some S.eng[c] := List.getElem?_eq_getElem hclt
   have hs : s.eng = [S.eng[c]] := by rw [h.eng, hx]; rfl
-  rw [outputNoCb_nf Sh cfg P S len h.uni, outputNoCb_nf Sh (monoCfg cfg) P s len (by rw [h.eng]; exact uniform_toList Sh _ _)]
-  simp only [hs, h.flushing, List.map_cons, List.map_nil]
+  rw [outputNoCb_nf Sh cfg S len h.uni, outputNoCb_nf Sh (monoCfgC cfg mc) s len (by rw [h.eng]; exact uniform_toList Sh _ _)]
   have hlast : lastLen (S.eng.map (fun e => out1 E S.flushing e len)) = (out1 E S.flushing S.eng[c] len).1.length := by
     apply lastLen_of_all
     · intro r hr
@@ -139,25 +137,38 @@ theorem outputNoCb_sim (Sh : Shape E κ) (cfg : Cfg α β) (P : PureConv cfg.cou
       rw [List.map_eq_nil_iff] at hnil
       rw [hnil] at hclt
       simp at hclt
-  refine ⟨⟨h.hc, ?_, ?_, ?_, ?_, ?_, rfl, h.error, h.fn, h.seed⟩, ?_, ?_, ?_⟩
+  -- channel c's view of the shared conversion pass
+  have hys : ((S.eng.map (fun e => out1 E S.flushing e len)).map (·.1)).getD c [] = (out1 E S.flushing S.eng[c] len).1 := by
+    rw [List.getD_eq_getElem?_getD, List.getElem?_map, List.getElem?_map, hx]; rfl
+  have hv := V.view S.seed (out1 E S.flushing S.eng[c] len).1.length ((S.eng.map (fun e => out1 E S.flushing e len)).map (·.1))
+    (by simp [h.len])
+    (by
+      intro y hy
+      obtain ⟨r, hr, rfl⟩ := List.mem_map.mp hy
+      obtain ⟨e, he, rfl⟩ := List.mem_map.mp hr
+      exact out1_len Sh _ _ _ _ (h.uni e he _ (List.getElem_mem hclt)))
+  rw [hys] at hv
+  have hmono : (monoCfgC cfg mc).cout = mc := rfl
+  simp only [hs, h.flushing, h.seed, hmono, List.map_cons, List.map_nil, convAll]
+  refine ⟨⟨h.hc, ?_, ?_, ?_, ?_, ?_, rfl, h.error, h.fn, ?_⟩, ?_, ?_, ?_⟩
   · simp [h.len]
   · show (addV _ _).length = _
-    rw [addV_length] <;> simp [h.clen, h.len]
+    rw [addV_length] <;> simp [h.clen, h.len, convAll_length2]
   · show Uniform Sh (List.map (·.2) (List.map (fun e => out1 E S.flushing e len) S.eng))
     rw [List.map_map]
     exact uniform_map Sh S.eng _ h.uni (fun e e' he => out1_sh Sh _ e e' len he)
   · show [(out1 E S.flushing S.eng[c] len).2] = (List.map (·.2) (List.map (fun e => out1 E S.flushing e len) S.eng))[c]?.toList
     rw [List.getElem?_map, List.getElem?_map, hx]; rfl
-  · show s.clips + ([P.g (out1 E S.flushing S.eng[c] len).1].sum) = (addV _ _).getD c 0
-    rw [addV_getD _ _ _ (by simp [h.clen, h.len]), h.clips]
-    congr 1
-    rw [List.getD_eq_getElem?_getD, List.getElem?_map, List.getElem?_map, hx]
+  · show s.clips + ([(mc S.seed (out1 E S.flushing S.eng[c] len).1).2.1].sum) = (addV _ _).getD c 0
+    rw [addV_getD _ _ _ (by simp [h.clen, h.len, convAll_length2]), h.clips, hv.2.1]
     simp
+  · show (mc S.seed (out1 E S.flushing S.eng[c] len).1).2.2 = _
+    exact hv.2.2.symm
   · show lastLen [out1 E S.flushing S.eng[c] len] = _
     rw [hlast]; rfl
-  · show [P.f (out1 E S.flushing S.eng[c] len).1] = [(List.map _ (List.map _ S.eng)).getD c []]
-    rw [List.getD_eq_getElem?_getD, List.getElem?_map, List.getElem?_map, hx]; rfl
-  · simp [h.len]
+  · show [(mc S.seed (out1 E S.flushing S.eng[c] len).1).1] = [_]
+    rw [hv.1]
+  · simp [h.len, convAll_length1]
 
 /-- the answers of the input function as the 1-channel resampler sees them -/
 def projReplies (cfg : Cfg α β) (c : Nat) (rs : List (Nat → FnReply β)) : List (Nat → FnReply β) :=
@@ -179,21 +190,21 @@ theorem rel_setError (Sh : Shape E κ) {c ch : Nat} {S s : St σ} (h : Rel Sh c 
     Rel Sh c ch (S.setError e) (s.setError e) :=
   ⟨h.hc, h.len, h.clen, h.uni, h.eng, h.clips, h.flushing, rfl, h.fn, h.seed⟩
 
-theorem pullLoop_sim (Sh : Shape E κ) (cfg : Cfg α β) (P : PureConv cfg.cout) {c : Nat} (ilen len0 : Nat)
+theorem pullLoop_sim (Sh : Shape E κ) (cfg : Cfg α β) {c : Nat} (V : ChanConv cfg.cout cfg.ch c mc) (ilen len0 : Nat)
     (rs : List (Nat → FnReply β)) :
     ∀ {S s : St σ} (_ : Rel Sh c cfg.ch S s) (olen odone0 : Nat) (acc : List (List β)) (_ : acc.length = cfg.ch),
       Rel Sh c cfg.ch (pullLoop E cfg ilen len0 rs S olen odone0 acc).1
-        (pullLoop E (monoCfg cfg) ilen len0 (projReplies cfg c rs) s olen odone0 [acc.getD c []]).1 ∧
-      (pullLoop E (monoCfg cfg) ilen len0 (projReplies cfg c rs) s olen odone0 [acc.getD c []]).2.1
+        (pullLoop E (monoCfgC cfg mc) ilen len0 (projReplies cfg c rs) s olen odone0 [acc.getD c []]).1 ∧
+      (pullLoop E (monoCfgC cfg mc) ilen len0 (projReplies cfg c rs) s olen odone0 [acc.getD c []]).2.1
         = (pullLoop E cfg ilen len0 rs S olen odone0 acc).2.1 ∧
-      (pullLoop E (monoCfg cfg) ilen len0 (projReplies cfg c rs) s olen odone0 [acc.getD c []]).2.2
+      (pullLoop E (monoCfgC cfg mc) ilen len0 (projReplies cfg c rs) s olen odone0 [acc.getD c []]).2.2
         = [(pullLoop E cfg ilen len0 rs S olen odone0 acc).2.2.getD c []] ∧
       (pullLoop E cfg ilen len0 rs S olen odone0 acc).2.2.length = cfg.ch := by
   induction rs with
   | nil =>
     intro S s h olen odone0 acc hacc
-    obtain ⟨hrel, hd, ho, hl⟩ := outputNoCb_sim Sh cfg P h olen
-    have happ : appendCh [acc.getD c []] (outputNoCb E (monoCfg cfg) s olen).2.2
+    obtain ⟨hrel, hd, ho, hl⟩ := outputNoCb_sim Sh cfg V h olen
+    have happ : appendCh [acc.getD c []] (outputNoCb E (monoCfgC cfg mc) s olen).2.2
         = [(appendCh acc (outputNoCb E cfg S olen).2.2).getD c []] := by
       rw [ho, appendCh_singleton, appendCh_getD _ _ _ (by rw [hacc, hl])]
     have happl : (appendCh acc (outputNoCb E cfg S olen).2.2).length = cfg.ch := by
@@ -202,7 +213,7 @@ theorem pullLoop_sim (Sh : Shape E κ) (cfg : Cfg α β) (P : PureConv cfg.cout)
     simp only [List.map_nil, hd, stopNow_rel Sh hrel, happ]
     cases stopNow (outputNoCb E cfg S olen).1 (odone0 + (outputNoCb E cfg S olen).2.1) len0
     · obtain ⟨hrel3, hd3, ho3, hl3⟩ :=
-        outputNoCb_sim Sh cfg P (rel_setFlushing Sh hrel) (olen - (outputNoCb E cfg S olen).2.1)
+        outputNoCb_sim Sh cfg V (rel_setFlushing Sh hrel) (olen - (outputNoCb E cfg S olen).2.1)
       simp only [Bool.false_eq_true, if_false]
       refine ⟨hrel3, ?_, ?_, ?_⟩
       · rw [hd3]
@@ -212,8 +223,8 @@ theorem pullLoop_sim (Sh : Shape E κ) (cfg : Cfg α β) (P : PureConv cfg.cout)
       exact ⟨hrel, by simp, by simp, happl⟩
   | cons r rs ih =>
     intro S s h olen odone0 acc hacc
-    obtain ⟨hrel, hd, ho, hl⟩ := outputNoCb_sim Sh cfg P h olen
-    have happ : appendCh [acc.getD c []] (outputNoCb E (monoCfg cfg) s olen).2.2
+    obtain ⟨hrel, hd, ho, hl⟩ := outputNoCb_sim Sh cfg V h olen
+    have happ : appendCh [acc.getD c []] (outputNoCb E (monoCfgC cfg mc) s olen).2.2
         = [(appendCh acc (outputNoCb E cfg S olen).2.2).getD c []] := by
       rw [ho, appendCh_singleton, appendCh_getD _ _ _ (by rw [hacc, hl])]
     have happl : (appendCh acc (outputNoCb E cfg S olen).2.2).length = cfg.ch := by
@@ -239,13 +250,13 @@ theorem pullLoop_sim (Sh : Shape E κ) (cfg : Cfg α β) (P : PureConv cfg.cout)
     · simp only [if_true]
       exact ⟨hrel, by simp, by simp, happl⟩
 
-theorem output_sim (Sh : Shape E κ) (cfg : Cfg α β) (P : PureConv cfg.cout) {c : Nat} {S s : St σ}
+theorem output_sim (Sh : Shape E κ) (cfg : Cfg α β) {c : Nat} (V : ChanConv cfg.cout cfg.ch c mc) {S s : St σ}
     (h : Rel Sh c cfg.ch S s) (op : Bool) (len0 : Nat) (rs : List (Nat → FnReply β)) :
-    Rel Sh c cfg.ch (output E cfg S op len0 rs).1 (output E (monoCfg cfg) s op len0 (projReplies cfg c rs)).1 ∧
-    (output E (monoCfg cfg) s op len0 (projReplies cfg c rs)).2.1 = (output E cfg S op len0 rs).2.1 ∧
-    (output E (monoCfg cfg) s op len0 (projReplies cfg c rs)).2.2 = [(output E cfg S op len0 rs).2.2.getD c []] ∧
+    Rel Sh c cfg.ch (output E cfg S op len0 rs).1 (output E (monoCfgC cfg mc) s op len0 (projReplies cfg c rs)).1 ∧
+    (output E (monoCfgC cfg mc) s op len0 (projReplies cfg c rs)).2.1 = (output E cfg S op len0 rs).2.1 ∧
+    (output E (monoCfgC cfg mc) s op len0 (projReplies cfg c rs)).2.2 = [(output E cfg S op len0 rs).2.2.getD c []] ∧
     (output E cfg S op len0 rs).2.2.length = cfg.ch := by
-  have hb : (blank (monoCfg cfg).ch : List (List β)) = [(blank cfg.ch : List (List β)).getD c []] := by
+  have hb : (blank (monoCfgC cfg mc).ch : List (List β)) = [(blank cfg.ch : List (List β)).getD c []] := by
     rw [blank_getD]; rfl
   unfold output
   rw [h.error, h.fn]
@@ -254,7 +265,7 @@ theorem output_sim (Sh : Shape E κ) (cfg : Cfg α β) (P : PureConv cfg.cout) {
   · split
     · exact ⟨⟨h.hc, h.len, h.clen, h.uni, h.eng, h.clips, h.flushing, rfl, rfl, h.seed⟩, rfl, hb, blank_length _⟩
     · rw [hb]
-      exact pullLoop_sim Sh cfg P _ _ rs h _ _ _ (blank_length _)
+      exact pullLoop_sim Sh cfg V _ _ rs h _ _ _ (blank_length _)
 
 /-! ### the both-split loop of `soxr_process` -/
 
